@@ -13,14 +13,22 @@
 (*                       batch on the state r.eid, or a new definition     *)
 (*                       (fresh resolver), or is a marker;                 *)
 (*   r.panic           : fc stopped with a diagnostic: a marker follows.   *)
-(* Rounds that involve an unresolved field-access type (not modelled) are  *)
-(* skipped and counted.  The alphabetical order of the variable names is   *)
+(* Rounds that involve an unresolved field-access type are counted (they   *)
+(* are validated like the others; the field types of the record instances  *)
+(* come from the hook, RecFile).  The alphabetical order of the names is   *)
 (* the string order of Go, computed by the harness (OrdFile).              *)
 (***************************************************************************)
 EXTENDS FoResolver, Json
-CONSTANTS TraceFile, OrdFile
+CONSTANTS TraceFile, OrdFile, RecFile
 Trace == ndJsonDeserialize(TraceFile)
 OrdSeq == ndJsonDeserialize(OrdFile)[1]
+\* the record instances that occur in the trace with their field types (from g_recInfoDic, recorded by the hook)
+Recs == ndJsonDeserialize(RecFile)
+TraceRecField(rt, f) ==
+  IF \E i \in 1..Len(Recs) : Recs[i].rt = rt
+  THEN LET fs == Recs[CHOOSE i \in 1..Len(Recs) : Recs[i].rt = rt].fields
+       IN IF \E j \in 1..Len(fs) : fs[j][1] = f THEN fs[CHOOSE j \in 1..Len(fs) : fs[j][1] = f][2] ELSE PANIC
+  ELSE NOREC
 
 VARIABLES l, bad, skipped
 tvars == <<l, bad, skipped, rvars, ord, mvars>>
@@ -58,8 +66,8 @@ TStep ==
   /\ l < Len(Trace)
   /\ LET cur == Trace[l]
          nxt == Trace[l + 1]
-         skip == IsMark(cur) \/ LineHasFa(cur) \/ (~IsMark(nxt) /\ LineHasFa(nxt))
-     IN /\ skipped' = IF skip /\ ~IsMark(cur) THEN skipped + 1 ELSE skipped
+         skip == IsMark(cur)
+     IN /\ skipped' = IF ~IsMark(cur) /\ LineHasFa(cur) THEN skipped + 1 ELSE skipped      \* (now: rounds that involve a field-access type, validated like the others)
         /\ bad' = IF skip \/ Explains(cur, nxt) THEN bad ELSE Append(bad, l)
   /\ l' = l + 1
   /\ IF l + 1 = Len(Trace) THEN PrintT(<<"TRACE-END", Len(Trace), bad', "skipped", skipped'>>) ELSE TRUE
